@@ -8,9 +8,10 @@ set -e
 D="$1"; [ -n "$D" ] || { echo "usage: $0 <dir>"; exit 2; }
 VERIF="$(cd "$(dirname "$0")/.." && pwd)"
 mkdir -p "$D"
-rsync -a --exclude target --exclude .git /repo/ "$D/repo/"
+rsync -a --exclude target --exclude .git /repo/ "$D/repo/" || [ $? = 24 ]
 ( cd "$D/repo" && git init -q 2>/dev/null; git add -A >/dev/null; git -c user.email=x@x -c user.name=x commit -qm base >/dev/null 2>&1 || true )
-rsync -a --exclude work --exclude replays --exclude .git --exclude evidence "$VERIF/" "$D/verif/"
+# (exit 24 = a file vanished while copying, e.g. cargo rewriting its target directory: harmless)
+rsync -a --exclude work --exclude replays --exclude .git --exclude evidence --exclude incremental "$VERIF/" "$D/verif/" || [ $? = 24 ]
 mkdir -p "$D/verif/evidence"
 find "$D/verif/harness" \( -name '*.rs' -o -name Cargo.toml \) -not -path '*/target/*' | xargs sed -i "s#\"/repo/#\"$D/repo/#g"
 echo "scratch ready: $D/repo  $D/verif"
